@@ -140,10 +140,15 @@ def verdict (kind : String) (i : Json) : Verdict :=
     { allowed := fun out => jeq out fixed, fixed := fixed, known := fun _ => [] }
   | "lastwins" =>
     let root := entriesOf asStr (jget i "root")
+    let rootName := jstr i "rootName"
     let files := entriesOf (entriesOf asStr) (jget i "files")
     let ks := root.map (·.1) ++ files.flatMap (fun f => f.2.map (·.1))
-    { allowed := fun out => (perms files).any fun π => jeq out (templatesJson ks (indexTemplatesIn root π))
-      fixed := templatesJson ks (indexTemplates root files)
+    -- repaired (upstream restorePayeeTemplate): smallest path that has a template, root included
+    let fixed := templatesJson ks (indexTemplates ((rootName, root) :: files))
+    { allowed := fun out => jeq out fixed ||
+        -- pinned: root first, included files in map order, a later file overwrites
+        (perms files).any fun π => jeq out (templatesJson ks (indexTemplatesIn root π))
+      fixed := fixed
       known := fun _ => if files.length ≥ 2 then ["workspace-index-order"] else []
       nontrivial := files.length ≥ 2 }
   | "txfiles" =>
